@@ -6,6 +6,7 @@ import (
 	"fmt"
 	"math/rand"
 	"sort"
+	"strings"
 
 	"github.com/onflow/atree"
 	tu "github.com/onflow/atree/test_utils"
@@ -1292,7 +1293,8 @@ func runC17(c *CaseCtx) *CaseResult {
 			}
 		}
 	case 2: // CopyNonRefSimple matrix
-		kinds := []string{"plain", "wrapped", "large", "nested-inlined", "nested-standalone", "group", "multi-slab"}
+		// "group-nested" / "group-wrapped": the members of an INLINE collision group hold an inlined container / a wrapper
+		kinds := []string{"plain", "wrapped", "large", "nested-inlined", "nested-standalone", "group", "multi-slab", "group-nested", "group-wrapped"}
 		rounds := 2
 		if c.Tier == "thorough" {
 			rounds = 8
@@ -1413,24 +1415,36 @@ func c17CopyCase(w *World, res *CaseResult, srcKind, elemKind string, inlinedSou
 	var src *Node
 	var err error
 	var dig *DigProfile
-	if elemKind == "group" && inlinedSource {
+	grouped := strings.HasPrefix(elemKind, "group")
+	if grouped && (inlinedSource || srcKind == "array") {
 		// nested maps are always re-created with the default digester by the library, so a custom
-		// (colliding) digester is only meaningful for root maps
-		elemKind = "plain"
+		// (colliding) digester is only meaningful for root maps; arrays have no collision groups
+		switch elemKind {
+		case "group-nested":
+			elemKind = "nested-inlined"
+		case "group-wrapped":
+			elemKind = "wrapped"
+		default:
+			elemKind = "plain"
+		}
+		grouped = false
 	}
 	if srcKind == "array" {
 		src, err = w.NewRootArray(w.addr, w.newTI(false))
 	} else {
-		if elemKind == "group" {
+		if grouped {
 			dig = &DigProfile{Alpha: [4]uint64{1, 0, 0, 0}, Salt: uint64(r.Int63())}
+			switch elemKind {
+			case "group-nested":
+				elemKind = "nested-inlined"
+			case "group-wrapped":
+				elemKind = "wrapped"
+			}
 		}
 		src, err = w.NewRootMap(w.addr, w.newTI(false), dig)
 	}
 	if err != nil {
 		return err
-	}
-	if srcKind == "array" && elemKind == "group" {
-		elemKind = "plain"
 	}
 	// the holder keeps the source alive as a root, or as an (inlined) element
 	n := 3 + r.Intn(4)
@@ -1502,7 +1516,8 @@ func c17CopyCase(w *World, res *CaseResult, srcKind, elemKind string, inlinedSou
 	if elemKind == "multi-slab" {
 		expectCopyable = false
 	}
-	if elemKind == "group" && srcKind == "map" {
+	if grouped && srcKind == "map" {
+		res.Obs["copy-sources-with-collision-groups"]++
 		// first-level collisions: inline group stays copyable, an external group is a reference
 		wk := NewWalker(liveGetter(w.ps), w.ps, w.cb)
 		if err := wk.WalkRootSlab(rootSlabOf(src), src, src.Dig); err != nil {
